@@ -25,9 +25,16 @@ def run(tier):
     if not ck.add_mc("JlsApiDefs (definition identity rules of the contract)", r):
         ck.violation({"where": "model", "config": "JlsApiDefs_mc", "invariant": r.violated})
     P = []
-    n = 1500 if thorough else 300
+    n = 20000 if thorough else 300
     for i in range(n):
         P.append(progs.gen_defs_program(rng, i + 1, big=(i % 12 == 0)))
+    # histories from the shape graph (spec/JlsShapes.tla): definitions and user data (empty items included) next to
+    # every combination of tracks
+    import shapes
+    for q, model in shapes.programs(ck, rng, "c13-shape", thorough, 12000 if thorough else 500, x0=len(P)):
+        q["ops"] += shapes.reader_ops(rng, model, nreads=0)
+        q["model"] = progs.model_json(model)
+        P.append(q)
     trace, v, other = apicheck.run_api(ck, P, "c13", {"C13"})
     ck.cov["distinct_nontrivial"] = sum(1 for p in P if set(p["feat"]) & {"dup-source", "dup-signal", "missing-source", "data-for-undefined", "bad-source-id", "big-string", "big-userdata"})
     ck.cov["rule"] = ("one case per generated definition/user-data program; non-trivial = it contains at least one duplicate definition, "
